@@ -646,6 +646,7 @@ STD_TRUE = [
     'tag_multiome_multi_processing: use_pool', 'tag_multiome_multi_processing: len(meta)',
     "merge_bams: which('samtools') is None", 'tag_multiome_single_thread: not no_source_reads',
     'tag_multiome_single_thread: not rgid in read_groups',
+    "run_multiome_tagging: args.method == 'nla' or args.method == 'nla_no_overhang'",
 ]
 
 
@@ -683,13 +684,16 @@ import fw
 
 GEN_PATH = os.path.join(fw.COQ, 'Gen', 'GenStatus.v')
 ST_NAMES = ['none', 'unfinished', 'FAIL', 'OK', 'other']
-KIND = {'exc': 1, 'base': 2, 'partial': 3, 'base_partial': 4}
+KIND = {'exc': 1, 'base': 2, 'partial': 3, 'base_partial': 4, 'kill': 2}   # SIGKILL: no handler runs, like a non-Exception
 
 CONFIGS = {
     'chic_s': {'method': 'chic', 'bam': 'chic', 'mp': False},
     'chic_m': {'method': 'chic', 'bam': 'chic', 'mp': True},
     'nla_s': {'method': 'nla', 'bam': 'nla', 'mp': False},
     'nla_m': {'method': 'nla', 'bam': 'nla', 'mp': True},
+    # the complete data/mini_nla_test.bam (566 records, 9 MB header: 2-4 s per run): thorough tier only
+    'nlafull_s': {'method': 'nla', 'bam': 'nla_full', 'mp': False},
+    'nlafull_m': {'method': 'nla', 'bam': 'nla_full', 'mp': True},
 }
 
 L_SINGLE_LOOP = 'tag_multiome_single_thread/next(enumerate(molecule_iterator_exec))#0'
@@ -699,6 +703,8 @@ LOOP_JOBS = 'tag_multiome_multi_processing: for (bam, meta) in job_generator'
 LOOP_MERGE = 'merge_bams: for o in bams'
 CH_EXISTS = 'run_multiome_tagging: os.path.exists(remove_existing_path)'
 CH_MP = 'run_multiome_tagging: args.multiprocess'
+CH_METHOD = {'nla': "run_multiome_tagging: args.method == 'nla' or args.method == 'nla_no_overhang'",
+             'chic': "run_multiome_tagging: args.method == 'chic'"}
 
 
 def inv_py(world):
@@ -772,7 +778,7 @@ class Prop(fw.PropBase):
         F = lambda point, **kw: dict(point=point, **kw)
         for cfg in ('chic_s', 'nla_s'):
             n = self.n_mol[cfg]
-            ks = sorted(set([0, 1, n // 2, n - 2, n - 1])) if quick else range(n)
+            ks = sorted(set([0, 1, n // 2, n - 2, n - 1])) if (quick and n > 64) else range(n)
             ks = [k for k in ks if 0 <= k < n]
             add(cfg, [])
             add(cfg, [F('write_status', after=0)])
@@ -846,6 +852,29 @@ class Prop(fw.PropBase):
             add(cfg, [F('pysam_merge', kind='partial')], pre='prev_ok')
             add(cfg, [F('index_out')], pre='prev_ok')
             add(cfg, [F('write_status', after=1)], pre='prev_ok')
+        if not quick:
+            # SIGKILL samples (process death is not modelled; compared with "no handler runs")
+            for cfg in ('chic_s', 'nla_s'):
+                n = self.n_mol[cfg]
+                add(cfg, [F('write_pysam', after=n // 2, kind='kill')])
+                add(cfg, [F('sort', first=1, kind='kill')])
+                add(cfg, [F('index_out', kind='kill')])
+                add(cfg, [F('index_out', kind='kill')], pre='prev_ok')
+            for cfg in ('chic_m', 'nla_m'):
+                add(cfg, [F('pysam_merge', kind='kill')])
+                add(cfg, [F('index_out', kind='kill')])
+                add(cfg, [F('rmtree', kind='kill')])
+            # the complete test library
+            n = self.n_mol['nlafull_s']
+            for fl in ([], [F('mol_next', after=n // 2)], [F('write_pysam', after=n - 1)], [F('mol_end', total=n)],
+                       [F('rg_header')], [F('sort', first=2)], [F('sort', first=3)], [F('sort', first=3, kind='partial')],
+                       [F('index_out')], [F('write_status', after=1)]):
+                add('nlafull_s', fl)
+            m = self.n_jobs['nlafull_m']
+            for fl in ([], [F('worker', after=m - 1)], [F('write_pysam', after=n // 2, where='worker')], [F('sort_worker', first=3)],
+                       [F('pysam_merge', kind='partial')], [F('index_out')], [F('rmtree')], [F('write_status', after=1)]):
+                add('nlafull_m', fl)
+            add('nlafull_m', [F('index_out')], pre='prev_ok')
         return out
 
     # ---------------------------------------------------------------- fault -> model step
@@ -882,7 +911,8 @@ class Prop(fw.PropBase):
             elif pt == 'rg_header':
                 plan.append(('sorted_bam_file/add_readgroups_to_header#0', 0, kind))
             elif pt == 'sort':
-                for j in range(f['first']):
+                # a non-Exception is not caught by the retry loop: the first attempt ends the run
+                for j in range(1 if kind in (2, 4) else f['first']):
                     plan.append(('sort_and_index/pysam.sort#%d' % j, 0, kind))
             elif pt == 'index_out':
                 plan.append(('merge_bams/pysam.index#0' if mp else 'sort_and_index/pysam.index#0', 0, kind))
@@ -933,6 +963,8 @@ class Prop(fw.PropBase):
                 v = mp
             if name == CH_EXISTS:
                 v = case.get('pre') == 'prev_ok'
+            if name in CH_METHOD.values():
+                v = name == CH_METHOD[CONFIGS[cfg]['method']]
             chs.append(1 if v else 0)
         w0 = [3, 1, 1, 1, 1] if case.get('pre') == 'prev_ok' else [0, 0, 0, 0, 0]
         return [w0, cnts, chs, [[k, kind] for k, kind in faults_idx]]
@@ -941,7 +973,7 @@ class Prop(fw.PropBase):
         """model outcome per case; fault (label, occurrence) pairs are resolved to dynamic step indices
         with the model's own trace, one fault at a time"""
         g = self.gen
-        for name in (LOOP_SINGLE, LOOP_JOBS, CH_MP, CH_EXISTS):
+        for name in (LOOP_SINGLE, LOOP_JOBS, CH_MP, CH_EXISTS) + tuple(CH_METHOD.values()):
             if name not in g.loops and name not in g.choices:
                 raise fw.Broken('correspondence', 'loop / run-time test not found in the generated pipeline: %s' % name)
         plans = [self.label_plan(c) for c in cases]
@@ -969,12 +1001,17 @@ class Prop(fw.PropBase):
                  'fault_steps': resolved[i]} for i, o in enumerate(outs)]
 
     # ---------------------------------------------------------------- K
+    def configs(self):
+        if self.tier == 'quick':
+            return {k: v for k, v in CONFIGS.items() if not k.startswith('nlafull')}
+        return CONFIGS
+
     def run_impl_cases(self, cases, small_n):
         chunks = max(1, min(6, len(cases) // 12))
         parts = [cases[i::chunks] for i in range(chunks)]
 
         def one(part):
-            return fw.run_impl('impl_c20.py', {'configs': CONFIGS, 'cases': part, 'small_n': small_n}, timeout=1500)
+            return fw.run_impl('impl_c20.py', {'configs': self.configs(), 'cases': part, 'small_n': small_n}, timeout=1500)
         with ThreadPoolExecutor(max_workers=chunks) as ex:
             rs = list(ex.map(one, parts))
         res = [None] * len(cases)
@@ -986,7 +1023,7 @@ class Prop(fw.PropBase):
     def correspondence(self):
         small_n = 60 if self.tier == 'quick' else 160
         # reference runs first: molecule / job counts parametrise the crash points
-        probe = fw.run_impl('impl_c20.py', {'configs': CONFIGS, 'cases': [], 'small_n': small_n})
+        probe = fw.run_impl('impl_c20.py', {'configs': self.configs(), 'cases': [], 'small_n': small_n})
         self.refs = probe['refs']
         bad = {k: v for k, v in self.refs.items() if v['raised'] or v['world'] != [3, 1, 1, 1, 1]}
         self.n_mol = {k: v['molecules'] for k, v in self.refs.items()}
@@ -1049,7 +1086,8 @@ class Prop(fw.PropBase):
         self.cov['vm_compute_crosscheck'] = {'cases': len(idx), 'mismatches': nm}
         if not ok:
             raise fw.Broken('extraction', 'vm_compute and extracted model disagree: ' + log[-800:])
-        viol = [i for i, s in enumerate(spec) if not (s[0] and s[1])]
+        # fail_not_ok has the hypothesis st w0 <> Ok: not applicable over a previous successful output
+        viol = [i for i, s in enumerate(spec) if not s[0] or (not s[1] and cases[i].get('pre') != 'prev_ok')]
         if viol:
             raise fw.Broken('correspondence', 'the specification (invb / fail_not_ok) is false on %d real outcomes; first: %r -> %s'
                             % (len(viol), cases[viol[0]], describe(res[viol[0]]['world'])))
@@ -1089,7 +1127,7 @@ class Prop(fw.PropBase):
         if getattr(self, 'impl_res', None) is None:
             try:
                 small_n = 60
-                probe = fw.run_impl('impl_c20.py', {'configs': CONFIGS, 'cases': [], 'small_n': small_n})
+                probe = fw.run_impl('impl_c20.py', {'configs': self.configs(), 'cases': [], 'small_n': small_n})
                 self.refs = probe['refs']
                 self.n_mol = {k: v['molecules'] for k, v in self.refs.items()}
                 self.n_jobs = {k: v['jobs'] for k, v in self.refs.items()}
